@@ -53,6 +53,22 @@ func leafVariants() []leafDoc {
 			return fmt.Sprintf(`<mj-social-element name="%s" href="http://x/s%d">S%d</mj-social-element>`, []string{"facebook", "twitter", "github"}[i%3], i, i)
 		})})
 	}
+	// elements that render no icon (no src, unknown or missing network name), alone and mixed with ordinary ones; elements with a
+	// custom src; links without href
+	for _, at := range []string{"", ` mode="vertical"`} {
+		leaves = append(leaves, leaf{"social-iconless" + at, "<mj-social" + at + ">", "</mj-social>", seqs(func(i int) string {
+			return fmt.Sprintf(`<mj-social-element%s href="http://x/s%d">S%d</mj-social-element>`, []string{` name="intranet"`, ``, ` name=""`}[i%3], i, i)
+		})})
+		leaves = append(leaves, leaf{"social-mixed" + at, "<mj-social" + at + ">", "</mj-social>", seqs(func(i int) string {
+			return fmt.Sprintf(`<mj-social-element%s>S%d</mj-social-element>`, []string{` name="intranet" href="u"`, ` name="facebook" href="u"`, ` src="http://x/i.png"`}[i%3], i)
+		})})
+	}
+	leaves = append(leaves, leaf{"navbar-nohref", "<mj-navbar>", "</mj-navbar>", seqs(func(i int) string {
+		return fmt.Sprintf(`<mj-navbar-link%s>N%d</mj-navbar-link>`, []string{``, ` href=""`, ` href="/x" target="_self" rel="nofollow"`}[i%3], i)
+	})})
+	leaves = append(leaves, leaf{"carousel-mixed", "<mj-carousel>", "</mj-carousel>", seqs(func(i int) string {
+		return fmt.Sprintf(`<mj-carousel-image%s/>`, []string{` src="http://x/c.png" href="u"`, ` src="http://x/d.png" thumbnails-src="http://x/t.png"`, ` src="http://x/e.png" title="t" alt=""`}[i%3])
+	})})
 	for _, at := range []string{"", ` icon-position="left"`, ` border="none"`} {
 		leaves = append(leaves, leaf{"accordion" + at, "<mj-accordion" + at + ">", "</mj-accordion>", seqs(func(i int) string {
 			switch i % 3 {
